@@ -235,9 +235,9 @@ def axioms_audit(module, theorems, timeout=600):
     rc, out = lean_run(text, timeout=timeout)
     res = {}
     # output: 'thm' depends on axioms: [a, b]   |   'thm' does not depend on any axioms
-    for m in re.finditer(r"'([^']+)' depends on axioms: \[([^\]]*)\]", out, re.S):
+    for m in re.finditer(r"^'(.+?)' depends on axioms: \[([^\]]*)\]", out, re.S | re.M):
         res[m.group(1)] = [a.strip() for a in m.group(2).replace("\n", " ").split(",") if a.strip()]
-    for m in re.finditer(r"'([^']+)' does not depend on any axioms", out):
+    for m in re.finditer(r"^'(.+?)' does not depend on any axioms", out, re.M):
         res[m.group(1)] = []
     ok = rc == 0
     for t in theorems:
@@ -352,15 +352,22 @@ class Check:
                  "UrcuVerif.Handshake.gp_eventually_completes", "UrcuVerif.WaitNode.leader_eventually_done",
                  "UrcuVerif.WaitNode.waiter_eventually_woken", "UrcuVerif.WaitNode.waiter_eventually_returns",
                  "UrcuVerif.QsbrHs.qsbr_leader_eventually_woken"]),
-        "C03": (["UrcuVerif.Props.LiveC03", "UrcuVerif.Props.LiveC03Full"],
-                ["UrcuVerif.CallRcuWake.tso_helper_eventually_wakes", "UrcuVerif.CallRcu.helper_eventually_wakes",
+        "C03": (["UrcuVerif.Props.LiveC03", "UrcuVerif.Props.LiveC03Full", "UrcuVerif.Props.LiveC03E2E"],
+                ["UrcuVerif.CallRcu.callback_eventually_invoked_from_call", "UrcuVerif.CallRcu.callback_eventually_invoked",
+                 "UrcuVerif.CallRcu.queued_callback_eventually_invoked_any", "UrcuVerif.CallRcu.running_callback_eventually_finishes",
+                 "UrcuVerif.CallRcuWake.tso_helper_eventually_wakes", "UrcuVerif.CallRcu.helper_eventually_wakes",
                  "UrcuVerif.CallRcu.batched_callback_eventually_invoked", "UrcuVerif.CallRcu.queued_callback_eventually_invoked",
                  "UrcuVerif.CallRcu.C03_full_false"]),
-        "C04": (["UrcuVerif.Props.LiveC04"], ["UrcuVerif.CallRcu.barrier_eventually_returns"]),
+        "C04": (["UrcuVerif.Props.LiveC04", "UrcuVerif.Props.LiveC04E2E"],
+                ["UrcuVerif.CallRcu.barrier_eventually_returns_from_call", "UrcuVerif.CallRcu.barrier_eventually_returns_from_wait",
+                 "UrcuVerif.CallRcu.barrier_eventually_returns"]),
         "C13": (["UrcuVerif.Props.LiveC13"],
                 ["UrcuVerif.DeferWake.defer_thread_eventually_woken", "UrcuVerif.C13_conc_live_proved", "UrcuVerif.C13_conc_full_proved"]),
         "C14": (["UrcuVerif.Props.LiveC14"], ["UrcuVerif.Poll.poll_eventually_true", "UrcuVerif.Poll.poll_eventually_true_of_gp"]),
-        "C16": (["UrcuVerif.Props.LiveC16"], ["UrcuVerif.Fork.after_fork_child_eventually_returns", "UrcuVerif.Fork.afc_exit"]),
+        "C16": (["UrcuVerif.Props.LiveC16", "UrcuVerif.Props.LiveC16E2E"],
+                ["UrcuVerif.Fork.C16_full'_proved", "UrcuVerif.Fork.C16_full_parent'_proved", "UrcuVerif.Fork.child_callbacks_eventually_invoked",
+                 "UrcuVerif.Fork.parent_callbacks_eventually_invoked", "UrcuVerif.Fork.after_fork_child_eventually_returns",
+                 "UrcuVerif.Fork.afc_exit"]),
     }
     FAIR = ["UrcuVerif.Fair.fair_measure_leadsto", "UrcuVerif.Fair.fair_measure_leadsto_family", "UrcuVerif.Fair.fair_measure_leadsTo",
             "UrcuVerif.Fair.measure_leadsto_core"]
